@@ -37,6 +37,61 @@ fn main() {
         println!("load_definitions: {:?}", r.map(|_| "ok"));
         args.drain(0..2);
     }
+    // --canon-sweep <stride>: every prefix x (unit or base unit name) [+ s] of the loaded database, every stride-th name:
+    // the canonical name must denote the value the name denotes (C07). Prints CANON-BAD lines (first 20) and a summary.
+    if args.len() >= 2 && args[0] == "--canon-sweep" {
+        let stride: usize = args[1].parse().unwrap_or(1).max(1);
+        let reg = &ctx.registry;
+        let mut stems: Vec<String> = reg.units.keys().cloned().collect();
+        stems.extend(reg.base_units.iter().map(|b| b.to_string()));
+        stems.extend(reg.base_unit_long_names.keys().cloned());
+        stems.extend(reg.definitions.keys().cloned());
+        stems.sort();
+        stems.dedup();
+        let mut pres: Vec<String> = vec![String::new()];
+        pres.extend(reg.prefixes.iter().map(|(p, _)| p.clone()));
+        let (mut checked, mut nbad, mut k) = (0usize, 0usize, 0usize);
+        for pre in &pres {
+            for stem in &stems {
+                for suffix in ["", "s"] {
+                    k += 1;
+                    if k % stride != 0 {
+                        continue;
+                    }
+                    let name = format!("{}{}{}", pre, stem, suffix);
+                    let r = catch_unwind(AssertUnwindSafe(|| {
+                        let direct = ctx.lookup(&name);
+                        let canon = ctx.canonicalize(&name);
+                        let again = ctx.canonicalize(&name);
+                        let via = canon.as_ref().and_then(|c| ctx.lookup(c));
+                        let same_twice = canon == again && ctx.lookup(&name) == direct;
+                        (direct, canon, via, same_twice)
+                    }));
+                    checked += 1;
+                    let why = match r {
+                        Err(_) => Some("panic".to_string()),
+                        Ok((direct, canon, via, same_twice)) => {
+                            if !same_twice {
+                                Some("two calls disagree".to_string())
+                            } else if direct.is_some() && canon.is_some() && via != direct {
+                                Some(format!("canonical name {:?} denotes {}", canon.unwrap(), match via { Some(_) => "another value", None => "nothing" }))
+                            } else {
+                                None
+                            }
+                        }
+                    };
+                    if let Some(w) = why {
+                        nbad += 1;
+                        if nbad <= 20 {
+                            println!("CANON-BAD {} : {}", name, w);
+                        }
+                    }
+                }
+            }
+        }
+        println!("CANON-SWEEP checked={} bad={}", checked, nbad);
+        std::process::exit(if nbad > 0 { 1 } else { 0 });
+    }
     let mut bad = false;
     let mut last = String::new();
     for line in &args {
